@@ -22,6 +22,8 @@ pub struct Gen {
 pub struct TxPlan {
   pub ins: Vec<(u64, u32)>,
   pub outs: Vec<(u64, bool)>,
+  /// script kind per output (missing = 0: p2wpkh / bare OP_RETURN according to the flag)
+  pub kinds: Vec<u64>,
   pub recipes: Vec<Vec<u64>>,
 }
 
@@ -78,8 +80,12 @@ impl Gen {
 
   /// install one block: the planned transactions and a coinbase with the given outputs
   pub fn block(&mut self, plans: Vec<TxPlan>, coinbase_outs: Vec<(u64, bool)>) {
+    self.block_k(plans, coinbase_outs, vec![])
+  }
+
+  pub fn block_k(&mut self, plans: Vec<TxPlan>, coinbase_outs: Vec<(u64, bool)>, cb_kinds: Vec<u64>) {
     let mut txs = Vec::new();
-    let cb = TxSpec { id: self.next_id, ins: vec![(0, NULL_VOUT)], outs: coinbase_outs, envs: vec![] };
+    let cb = TxSpec { id: self.next_id, ins: vec![(0, NULL_VOUT)], outs: coinbase_outs, kinds: cb_kinds, envs: vec![] };
     self.next_id += 1;
     txs.push(cb);
     for p in plans {
@@ -101,7 +107,7 @@ impl Gen {
           parents: vec![],
         })
         .collect();
-      txs.push(TxSpec { id: self.next_id, ins: p.ins, outs: p.outs, envs });
+      txs.push(TxSpec { id: self.next_id, ins: p.ins, outs: p.outs, kinds: p.kinds, envs });
       self.next_id += 1;
     }
     let filled = self.world.add_item(&Item::Block(txs), true).expect("generated block");
@@ -188,7 +194,7 @@ fn split(rng: &mut Rng, total: u64, n: usize) -> Vec<u64> {
   v
 }
 
-fn random_tx(g: &Gen, rng: &mut Rng, avail: &mut Vec<((u64, u32), u64)>) -> Option<TxPlan> {
+fn random_tx(g: &Gen, rng: &mut Rng, avail: &mut Vec<((u64, u32), u64)>, own_id: u64) -> Option<TxPlan> {
   if avail.is_empty() {
     return None;
   }
@@ -229,6 +235,17 @@ fn random_tx(g: &Gen, rng: &mut Rng, avail: &mut Vec<((u64, u32), u64)>) -> Opti
       outs[k].1 = true;
     } else {
       outs.insert(k, (0, true));
+    }
+  }
+  // output scripts other than p2wpkh / bare OP_RETURN: empty, reserved / invalid first opcodes, OP_RETURN + data,
+  // OP_RETURN not in first position, p2tr, p2pkh (the flag is recomputed from the script bytes when the block is filled)
+  let mut kinds = vec![0u64; outs.len()];
+  if rng.chance(1, 2) {
+    for k in 0..outs.len() {
+      if rng.chance(1, 2) {
+        kinds[k] = 1 + rng.below(SCRIPT_KINDS - 1);
+        outs[k].1 = first_byte_is_op_return(&script_bytes(kinds[k], false));
+      }
     }
   }
   let tov: u64 = outs.iter().map(|(v, _)| *v).sum();
@@ -278,6 +295,13 @@ fn random_tx(g: &Gen, rng: &mut Rng, avail: &mut Vec<((u64, u32), u64)>) -> Opti
     parents.push(*rng.pick(&g.ids));
   }
   parents.push((FAKE_BASE + rng.below(5), rng.below(3) as u32));
+  // inscriptions of this very transaction (itself, an earlier or a later sibling): only those already in
+  // id_to_sequence_number when the child is written are recorded / reported in the event
+  if rng.chance(1, 3) {
+    for _ in 0..2 {
+      parents.push((own_id, rng.below(3) as u32));
+    }
+  }
   let mut recipes = Vec::new();
   for j in 0..nin {
     let n = *rng.pick(&[0, 0, 0, 1, 1, 1, 1, 2, 2, 3]);
@@ -285,7 +309,7 @@ fn random_tx(g: &Gen, rng: &mut Rng, avail: &mut Vec<((u64, u32), u64)>) -> Opti
       recipes.push(random_recipe(rng, j as u64, &ptrs, &parents));
     }
   }
-  Some(TxPlan { ins, outs, recipes })
+  Some(TxPlan { kinds, ins, outs, recipes })
 }
 
 fn coinbase_outs(rng: &mut Rng, fees: u64) -> Vec<(u64, bool)> {
@@ -323,7 +347,8 @@ fn random_chain(prop: &str, rng: &mut Rng) -> Line {
     let mut avail = g.live.clone();
     let mut fees = 0;
     for _ in 0..ntx {
-      if let Some(p) = random_tx(&g, rng, &mut avail) {
+      let own_id = g.next_id + 1 + plans.len() as u64;
+      if let Some(p) = random_tx(&g, rng, &mut avail, own_id) {
         let tin: u64 = p.ins.iter().map(|op| g.value_of(*op).max(avail_value(&plans, &g, *op))).sum();
         let tout: u64 = p.outs.iter().map(|(v, _)| *v).sum();
         fees += tin - tout;
@@ -338,7 +363,8 @@ fn random_chain(prop: &str, rng: &mut Rng) -> Line {
       }
     }
     let cb = coinbase_outs(rng, fees);
-    g.block(plans, cb);
+    let cb_kinds = if rng.chance(1, 3) { cb.iter().map(|_| if rng.chance(1, 2) { 1 + rng.below(SCRIPT_KINDS - 1) } else { 0 }).collect() } else { vec![] };
+    g.block_k(plans, cb, cb_kinds);
   }
   g.line()
 }
@@ -369,11 +395,11 @@ fn recipe_ptr(input: u64, p: u64) -> Vec<u64> {
 pub fn scenario_fwd_pointer(sats: bool) -> Line {
   let mut g = Gen::new(0, sats, 4);
   // A on the first sat of (3,0)
-  g.block(vec![TxPlan { ins: vec![(3, 0)], outs: vec![(SUBSIDY, false)], recipes: vec![clean_recipe(0)] }], vec![(SUBSIDY, false)]);
+  g.block(vec![TxPlan { kinds: vec![], ins: vec![(3, 0)], outs: vec![(SUBSIDY, false)], recipes: vec![clean_recipe(0)] }], vec![(SUBSIDY, false)]);
   let a_out = (g.next_id - 1, 0);
   // B in input 0 = (2,0) with pointer to the first sat of input 1 = A's output
   g.block(
-    vec![TxPlan { ins: vec![(2, 0), a_out], outs: vec![(2 * SUBSIDY, false)], recipes: vec![recipe_ptr(0, SUBSIDY)] }],
+    vec![TxPlan { kinds: vec![], ins: vec![(2, 0), a_out], outs: vec![(2 * SUBSIDY, false)], recipes: vec![recipe_ptr(0, SUBSIDY)] }],
     vec![(SUBSIDY, false)],
   );
   g.line()
@@ -382,10 +408,10 @@ pub fn scenario_fwd_pointer(sats: bool) -> Line {
 /// the mirrored situation (pointer into an EARLIER input): flagged
 pub fn scenario_back_pointer(sats: bool) -> Line {
   let mut g = Gen::new(0, sats, 4);
-  g.block(vec![TxPlan { ins: vec![(3, 0)], outs: vec![(SUBSIDY, false)], recipes: vec![clean_recipe(0)] }], vec![(SUBSIDY, false)]);
+  g.block(vec![TxPlan { kinds: vec![], ins: vec![(3, 0)], outs: vec![(SUBSIDY, false)], recipes: vec![clean_recipe(0)] }], vec![(SUBSIDY, false)]);
   let a_out = (g.next_id - 1, 0);
   g.block(
-    vec![TxPlan { ins: vec![a_out, (2, 0)], outs: vec![(2 * SUBSIDY, false)], recipes: vec![recipe_ptr(1, 0)] }],
+    vec![TxPlan { kinds: vec![], ins: vec![a_out, (2, 0)], outs: vec![(2 * SUBSIDY, false)], recipes: vec![recipe_ptr(1, 0)] }],
     vec![(SUBSIDY, false)],
   );
   g.line()
@@ -397,8 +423,8 @@ pub fn scenario_mixed(sats: bool, chain: u64) -> Line {
   let mut g = Gen::new(chain, sats, 5);
   g.block(
     vec![
-      TxPlan { ins: vec![(2, 0)], outs: vec![(1000, false), (0, false), (SUBSIDY - 1000, false)], recipes: vec![clean_recipe(0), clean_recipe(0)] },
-      TxPlan { ins: vec![(3, 0)], outs: vec![(10, false)], recipes: vec![recipe_ptr(0, 5000)] },
+      TxPlan { kinds: vec![], ins: vec![(2, 0)], outs: vec![(1000, false), (0, false), (SUBSIDY - 1000, false)], recipes: vec![clean_recipe(0), clean_recipe(0)] },
+      TxPlan { kinds: vec![], ins: vec![(3, 0)], outs: vec![(10, false)], recipes: vec![recipe_ptr(0, 5000)] },
     ],
     vec![(SUBSIDY + 100, false)],
   );
@@ -408,9 +434,63 @@ pub fn scenario_mixed(sats: bool, chain: u64) -> Line {
   child.extend_from_slice(&[t1, 0, 0, t1, 0, 1]);
   g.block(
     vec![
-      TxPlan { ins: vec![(t1, 0)], outs: vec![(0, true), (1000, false)], recipes: vec![child] },
-      TxPlan { ins: vec![(t1, 1)], outs: vec![(0, false)], recipes: vec![clean_recipe(0)] },
+      TxPlan { kinds: vec![], ins: vec![(t1, 0)], outs: vec![(0, true), (1000, false)], recipes: vec![child] },
+      TxPlan { kinds: vec![], ins: vec![(t1, 1)], outs: vec![(0, false)], recipes: vec![clean_recipe(0)] },
     ],
+    vec![(SUBSIDY, false)],
+  );
+  g.line()
+}
+
+/// parents inside one transaction: envelope 0 names itself and its later sibling (neither is in
+/// id_to_sequence_number yet: not recorded, not in the event), envelope 1 names its earlier sibling (recorded)
+pub fn scenario_sibling_parents(sats: bool) -> Line {
+  let mut g = Gen::new(0, sats, 4);
+  let own = g.next_id + 1;
+  let mut first = clean_recipe(0);
+  first[R_NPARENTS] = 2;
+  first.extend_from_slice(&[own, 0, 0, own, 1, 0]);
+  let mut second = clean_recipe(0);
+  second[R_NPARENTS] = 2;
+  second.extend_from_slice(&[own, 0, 0, own, 2, 0]);
+  g.block(
+    vec![TxPlan { kinds: vec![], ins: vec![(3, 0)], outs: vec![(1000, false), (SUBSIDY - 1000, false)], recipes: vec![first, second, recipe_ptr(0, 1000)] }],
+    vec![(SUBSIDY, false)],
+  );
+  g.line()
+}
+
+/// the jubilee boundary on regtest (110): the same reveal (two envelopes in one input: the second is not at offset
+/// zero) at heights 109, 110 and 111: cursed with a negative number below the jubilee, vindicated and blessed from
+/// exactly the jubilee height on. (testnet4's jubilee is 0: every height is jubilant, the genesis block reveals nothing.)
+pub fn scenario_jubilee() -> Line {
+  let mut g = Gen::new(0, false, 109);
+  for k in 0..3u64 {
+    g.block(
+      vec![TxPlan { kinds: vec![], ins: vec![(2 + k, 0)], outs: vec![(SUBSIDY, false)], recipes: vec![clean_recipe(0), clean_recipe(0)] }],
+      vec![(SUBSIDY, false)],
+    );
+  }
+  g.line()
+}
+
+/// output scripts: a reveal whose three inscriptions land (pointers) on an OP_RESERVED.. output, an
+/// `OP_1 OP_RETURN ..` output and an `OP_RETURN data` output; then the first two are moved (fifo) onto an
+/// invalid-opcode output and an empty script. Burned exactly for the script whose first byte is OP_RETURN.
+pub fn scenario_scripts(sats: bool) -> Line {
+  let mut g = Gen::new(0, sats, 4);
+  g.block(
+    vec![TxPlan {
+      kinds: vec![2, 6, 5, 0],
+      ins: vec![(3, 0)],
+      outs: vec![(1000, false), (1000, false), (1000, false), (SUBSIDY - 3000, false)],
+      recipes: vec![clean_recipe(0), recipe_ptr(0, 1000), recipe_ptr(0, 2000)],
+    }],
+    vec![(SUBSIDY, false)],
+  );
+  let t = g.next_id - 1;
+  g.block(
+    vec![TxPlan { kinds: vec![4, 1, 9], ins: vec![(t, 0), (t, 1)], outs: vec![(1000, false), (500, false), (500, false)], recipes: vec![recipe_ptr(0, 1500)] }],
     vec![(SUBSIDY, false)],
   );
   g.line()
@@ -424,6 +504,9 @@ pub fn generate(prop: &str, rng: &mut Rng, tier: &str) -> Vec<Line> {
     scenario_back_pointer(true),
     scenario_mixed(true, 0),
     scenario_mixed(false, 1),
+    scenario_sibling_parents(false),
+    scenario_scripts(true),
+    scenario_jubilee(),
   ];
   for _ in 0..n {
     v.push(random_chain(prop, rng));
